@@ -680,6 +680,16 @@ fn consume_expr<'i>(
         Ok(node)
     }
 
+    // `expression = { choice_operator? ~ term ~ ... }`: a leading `|` is legal in every
+    // expression (also inside parentheses and `PUSH(...)`), not only at the top of a rule.
+    let mut pairs = pairs;
+    if pairs
+        .peek()
+        .is_some_and(|pair| pair.as_rule() == Rule::choice_operator)
+    {
+        pairs.next();
+    }
+
     let term = |pair: Pair<'i, Rule>| unaries(pair.into_inner().peekable(), pratt);
     let infix = |lhs: Result<ParserNode<'i>, Vec<Error<Rule>>>,
                  op: Pair<'i, Rule>,
